@@ -217,6 +217,29 @@ theorem commitMkdir_inv (fa : Option Nat) (buffer : Node) (l : List Bytes) (r : 
       cases res <;> first | exact ih r' _ h1 | exact h1
     · exact ih r n hr
 
+theorem remoteStream_inv (fa : Option Nat) (n : Nat) (src : Bytes) (chunks : List Bytes) (r : Node) (hr : Inv r) :
+    Inv (remoteStream fa n src chunks r).1.1 := by
+  have hw : ∀ cs, Inv (Root.writer r src cs).1 := fun cs => root_step_inv r hr (.writer src cs)
+  unfold remoteStream
+  split
+  · exact hr
+  · rcases ho : Root.writer r src [] with ⟨r', res⟩
+    have h0 := hw []
+    rw [ho] at h0
+    cases res
+    case ok =>
+      simp only []
+      cases fa with
+      | none => exact hw chunks
+      | some k =>
+        simp only []
+        split
+        · exact hw _
+        · split
+          · exact hw _
+          · exact hw chunks
+    all_goals exact h0
+
 theorem commitWrite_inv (fa : Option Nat) (buffer : Node) (l : List Bytes) (r : Node) (n : Nat) (hr : Inv r) :
     Inv (commitWrite fa buffer l r n).1 := by
   induction l generalizing r n with
@@ -235,10 +258,8 @@ theorem commitWrite_inv (fa : Option Nat) (buffer : Node) (l : List Bytes) (r : 
       · rcases hrd : Root.readFile buffer src with _ | _ | _ | d | _ | _ | _
         case data =>
           simp only []
-          have h2 := remoteCall_inv fa (n + 1) (.writer src (ioChunks d)) r1 h1
-          have e2 : (fun x => MemFS.step .root x (.writer src (ioChunks d))) = (Root.writer · src (ioChunks d)) := rfl
-          rw [e2] at h2
-          rcases hw : remoteCall fa (n + 1) (Root.writer · src (ioChunks d)) r1 with ⟨r2, res2⟩
+          have h2 := remoteStream_inv fa (n + 1) src (ioChunks d) r1 h1
+          rcases hw : remoteStream fa (n + 1) src (ioChunks d) r1 with ⟨⟨r2, res2⟩, n'⟩
           rw [hw] at h2
           cases res2 <;> first | exact ih r2 _ h2 | exact h2
         all_goals exact h1
